@@ -27,13 +27,6 @@ def run(tier, replay_file=None):
             R.violation("spec:" + mc.violation, {"trace": mc.trace[:3000]})
         R.cov["states"] += mc.distinct
         R.cov["transitions"] += mc.generated
-    if not quick:
-        cv = tlc.run("Abm", dict(consts(2, 0, 3, 1, runspecs='{<<0,0,TRUE,100>>, <<0,1,TRUE,50>>}', ahead=1), L='0'),
-                     invariants=INVS, view="ViewEv", spec="Spec", timeout=3000, coverage=True)
-        R.cov["tlc_actions"] = {k: v[1] for k, v in cv.coverage.items() if v[1] > 0 and k != "Init"}
-        for must in ("Create", "DoDelete", "DoRun", "RunStep", "DoPlanDel", "DoPlanNew"):
-            if cv.coverage.get(must, (0, 0))[1] == 0:
-                raise common.Machinery("action %s never taken in the exhaustive run (vacuous)" % must)
     # spec -> code
     hs, _ = gen.histories("Abm", consts(3, 1, 40, 1, ops='{"Create","Delete","PlanDel","Run","RunStep"}', ahead=1), 4 if quick else 5)
     h2, _ = gen.histories("Abm", consts(8, 10, 400, 8), 16 if quick else 30, simulate=60 if quick else 1200,
@@ -54,6 +47,10 @@ def run(tier, replay_file=None):
             if len(R.violations) >= 20:
                 break
     R.cov["ops_replayed"], R.cov["steps_compared"], R.cov["runs_compared"] = n_ops, steps, runs
+    # vacuity: every kind of operation occurs in the replayed behaviours (TLC's -coverage exhausts the heap on Abm.tla)
+    for must in ("Create", "Delete", "Run", "RunStep", "PlanDel") + (() if quick else ("PlanNew",)):
+        if not R.violations and n_ops.get(must, 0) == 0:
+            raise common.Machinery("operation %s never occurs in the generated behaviours (vacuous)" % must)
     if not R.violations and (runs < 20 or steps < 200):
         raise common.Machinery("too few runs/steps in the generated behaviours (vacuous)")
     for hist in h2:
